@@ -164,7 +164,11 @@ def run_scenario(sc):
         if sc['seed'] % 2 == 1:
             relabel = np.random.RandomState(sc['seed']).permutation(K)
 
+        # one scenario in five clusters on the log scale (a documented option of clustering_gmm)
+        ckw = {'scale': 'log'} if sc['seed'] % 5 == 3 else {}
+
         def clustering(data, n_clusters, **kw):
+            kw = dict(kw, **ckw)
             lab = np.asarray(FlowCal.mef.clustering_gmm(data, n_clusters, **kw))
             return lab if relabel is None else relabel[lab]
 
